@@ -142,7 +142,8 @@ def c20Sig (st : SrState) (sec what : String) (r : Fields) (o : Option Fields) :
     "F20j-qos2-state"   -- PUBREC received: the live record is the PUBREL, the store still holds the PUBLISH
   else if sec == "RET" || sec == "IFL" then
     if what == "expiry" || what == "pv" || what == "p.pfflag" then s!"F20c-{sec}.{what}"
-    else if sec == "IFL" && weak then "F20d-packetid"   -- everything restored under packet id 0, one record overwriting the other
+    else if sec == "IFL" && weak then "F20d-packetid"
+    else if sec == "IFL" && what == "new" then "F20l-superseded-inflight-write"   -- everything restored under packet id 0, one record overwriting the other
     else s!"F20-{sec}.{what}"
   else
     let qAfter := ((match o with | some o => fieldOf o "q" | none => fieldOf r "q").toNat?).getD 0
